@@ -16,6 +16,7 @@
 #
 # Description:
 # Functionality for lookup table support.
+import copy
 import uuid
 
 import numpy as np
@@ -53,7 +54,8 @@ class LUTState:
         # Returns new LUT state containing given tensor + all tensors in this state
         # that do not overlap with the given tensor
         new_state = LUTState()
-        new_state.tensors.append(lut_tens)
+        # Record a copy: the tensor object is placed again (with another address) by the next stripe of its operator
+        new_state.tensors.append(copy.copy(lut_tens))
         start = lut_tens.address
         end = start + lut_tens.storage_size()
         for tens in self.tensors:
@@ -109,6 +111,7 @@ def optimize_high_level_cmd_stream(sg, arch):
     # - Removes unnecessary DMA operations of LUT-s that are already present in SHRAM from sg's command stream
     cmd_stream = []  # will contain existing command stream minus unneeded DMA operations
     lut_state = LUTState()
+    placed = set()  # LUT tensors that have been given an address
     slot_size = 256
     lut_start = arch.shram_lut_address
     lut_end = lut_start + arch.shram_lut_size
@@ -123,6 +126,17 @@ def optimize_high_level_cmd_stream(sg, arch):
             continue
         # LUT DMA operation
         lut_tens = cmd.out_tensor
+        if id(lut_tens) in placed:
+            # A later stripe of an operator whose LUT has been given an address already. The address and the LUT index are
+            # properties of the tensor/operator, not of the stripe, so they cannot change; the DMA is only unnecessary if
+            # the LUT is still present at that address
+            present = lut_state.get_equivalent(lut_tens)
+            if present is not None and present.address == lut_tens.address:
+                continue
+            lut_state = lut_state.put(lut_tens)
+            cmd_stream.append(cmd)
+            continue
+        placed.add(id(lut_tens))
         existing_tens = lut_state.get_equivalent(lut_tens)
         if existing_tens is not None:
             # LUT is already in SHRAM, no need to perform DMA
